@@ -505,8 +505,15 @@ inductive Reach (c : Cfg) : State → Prop where
   | init : Reach c init
   | step {s s' t l} : Reach c s → step c s t l = some s' → Reach c s'
 
-/-- no thread is inside an API call (maintenance included) -/
-def Quiescent (s : State) : Prop := ∀ t, s.pc t = .idle ∨ ∃ r, s.pc t = .done r
+def isRest : PC → Bool
+  | .idle => true
+  | .done _ => true
+  | _ => false
+
+/-- no thread is inside an API call (maintenance passes included) -/
+def Quiescent (c : Cfg) (s : State) : Prop := ∀ t, t < c.nThreads → isRest (s.pc t) = true
+
+instance (c : Cfg) (s : State) : Decidable (Quiescent c s) := by unfold Quiescent; exact inferInstance
 
 /-! ### The sequential specification: a per-key register that may forget -/
 
@@ -538,5 +545,7 @@ def histOk (r : Reg) : List HEv → Bool
   | e :: es => evOk r e && histOk (applyEv r e) es
 
 def vals (m : Nat → Option Entry) : Reg := fun k => (m k).map (·.val)
+
+def emptyReg : Reg := fun _ => none
 
 end Fv.Cache.Conc
